@@ -116,6 +116,20 @@ func plainLiteral(s string) bool {
 	return true
 }
 
+// wideLiteral: literal text that is legal in a base path or pattern segment but is not made of unreserved characters
+// alone: blanks, non-ASCII letters, reserved characters other than the delimiters of URL and template syntax.
+func wideLiteral(s string) bool {
+	if s == "" || s == "." || s == ".." {
+		return false
+	}
+	for i := 0; i < len(s); i++ {
+		if s[i] < 0x20 || s[i] == 0x7f || strings.IndexByte("/?#{}%", s[i]) >= 0 {
+			return false
+		}
+	}
+	return true
+}
+
 type model struct {
 	BaseSegs []string
 	PatSegs  []seg
@@ -128,11 +142,17 @@ type model struct {
 // InDomain parses the case and says why it is outside the quantifier (hand-written replay files only).
 func InDomain(c Case) (model, string) {
 	var m model
-	m.BaseSegs = segsOf(c.Base)
-	for _, s := range m.BaseSegs {
-		if !plainLiteral(s) {
+	for _, s := range segsOf(c.Base) {
+		// the base path is URL text: a segment is its decoded text (an escaped '/' is not generated: whether it stays
+		// inside the segment is not something the statement decides)
+		d, err := url.PathUnescape(s)
+		if err != nil || d == "" || d == "." || d == ".." || strings.ContainsAny(d, "/?#{}") || !utf8ish(d) {
 			return m, "base path segment outside the literal alphabet"
 		}
+		if !plainLiteral(s) && !wideLiteral(strings.ReplaceAll(d, "%", "_")) {
+			return m, "base path segment outside the literal alphabet"
+		}
+		m.BaseSegs = append(m.BaseSegs, d)
 	}
 	if strings.Contains(c.Base, "//") {
 		return m, "duplicate slash in base path"
@@ -163,7 +183,7 @@ func InDomain(c Case) (model, string) {
 		var want strings.Builder
 		for _, p := range s {
 			if p.Name == "" {
-				if !plainLiteral(p.Lit) && !(len(s) > 1 && plainInner(p.Lit)) {
+				if !plainLiteral(p.Lit) && !(len(s) > 1 && plainInner(p.Lit)) && !wideLiteral(p.Lit) {
 					return m, "pattern literal outside the literal alphabet"
 				}
 				want.WriteString(p.Lit)
@@ -178,6 +198,11 @@ func InDomain(c Case) (model, string) {
 		m.PatSegs = append(m.PatSegs, s)
 		m.Want = append(m.Want, want.String())
 		m.Literal = append(m.Literal, s.literal())
+	}
+	if !strings.HasPrefix(c.Pattern, "/") && len(raw) > 0 && strings.Contains(raw[0], ":") {
+		// the pattern is not rooted and its first segment carries a ':': as URL text (the pattern may embed a query, so
+		// it is read as one) that is a scheme, not a path (RFC 3986 section 4.2 wants "./a:b" there); not generated
+		return m, "unrooted path whose first segment contains ':'"
 	}
 	for _, o := range c.Orders {
 		if len(o) != len(c.Params) {
@@ -220,6 +245,16 @@ func InDomain(c Case) (model, string) {
 }
 
 // plainInner: literal text inside a mixed segment ("v{p0}", "{p0}.json") may also be "." on its own.
+// utf8ish: no control bytes (net/url refuses them in a URL).
+func utf8ish(s string) bool {
+	for i := 0; i < len(s); i++ {
+		if s[i] < 0x20 || s[i] == 0x7f {
+			return false
+		}
+	}
+	return true
+}
+
 func plainInner(s string) bool {
 	for i := 0; i < len(s); i++ {
 		if strings.IndexByte(literalAlphabet, s[i]) < 0 {
@@ -471,7 +506,7 @@ func judgeURL(c Case, m model, req *http.Request) *kit.Violation {
 		return kit.Failf("SHAPE: escaped path %q has %d segments %q, base path + pattern have %d (%q); %s", ep, len(got), got, len(want), want, describe(c))
 	}
 	for i := range want {
-		if lit[i] {
+		if lit[i] && plainLiteral(want[i]) {
 			if got[i] != want[i] {
 				return kit.Failf("SHAPE: segment %d of %q is %q, want the literal %q; %s", i, ep, got[i], want[i], describe(c))
 			}
